@@ -98,13 +98,26 @@ def _uniform_after(ev, k):
     return out
 
 
-def _judge(V, stats, kind, accepted, delta, u, what, extra=0.0):
-    """MH rule: accepted <=> u < exp(delta + extra) (ties skipped; no uniform => must be uphill)."""
+def _judge(V, stats, kind, accepted, delta, u, what, extra=0.0, scale=0.0):
+    """MH rule: accepted <=> u < exp(delta + extra) (ties skipped; no uniform => must be uphill).
+    `scale` = magnitude of the terms whose difference is delta: a log ratio that is a difference of
+    huge numbers (tail draws) is only known to ~1e-12 * scale and is not judged inside that band."""
     stats["attempts_judged"] += 1
     la = delta + extra
     if math.isnan(la):
         stats["warn_nan_log_ratio"] += 1
         return
+    unc = 1e-12 * abs(scale)
+    if unc > 0:
+        if abs(la) <= unc:
+            stats["indeterminate_skipped"] += 1
+            return
+        us_ = [u] if isinstance(u, float) else list(u or [])
+        lo_q = math.exp(min(la - unc, 0.0)) if la - unc > -745 else 0.0
+        hi_q = math.exp(min(la + unc, 0.0)) if la + unc > -745 else 0.0
+        if any(lo_q <= c_ <= hi_q for c_ in us_):
+            stats["indeterminate_skipped"] += 1
+            return
     if la > 0 and abs(la) > TIE:
         if not accepted:
             _viol(V, "A.decision", "%s: %s has log acceptance ratio %+.6g > 0 (probability 1) but was rejected" % (kind, what, la))
@@ -169,7 +182,8 @@ def refine_coordinatewise(V, stats, h, ev, w, kind):
                     if dj.size > 1:
                         stats["warn_uninterpretable_geometry"] += 1
                         return None
-            _judge(V, stats, kind, acc, (pval - Lw) / T, _uniform_after(ev, pk), "the move %r -> %r" % (w.tolist(), py.tolist()))
+            _judge(V, stats, kind, acc, (pval - Lw) / T, _uniform_after(ev, pk), "the move %r -> %r" % (w.tolist(), py.tolist()),
+                   scale=(abs(pval) + abs(Lw)) / T)
             if acc:
                 w, Lw = py.copy(), pval
         if kind == "gibbs":
@@ -192,7 +206,8 @@ def refine_coordinatewise(V, stats, h, ev, w, kind):
         pend = (k, y, val)
     if pend is not None:
         pk, py, pval = pend
-        _judge(V, stats, kind, True, (pval - Lw) / T, _uniform_after(ev, pk), "the move %r -> %r" % (w.tolist(), py.tolist()))
+        _judge(V, stats, kind, True, (pval - Lw) / T, _uniform_after(ev, pk), "the move %r -> %r" % (w.tolist(), py.tolist()),
+               scale=(abs(pval) + abs(Lw)) / T)
         w = py.copy()
     return w
 
@@ -204,7 +219,8 @@ def refine_metropolis(V, stats, h, ev, w, kind="metropolis"):
     for n, k in enumerate(posts):
         y, val = ev[k][2], ev[k][3]
         acc = n == len(posts) - 1
-        _judge(V, stats, kind, acc, (val - Lw) / T, _uniform_after(ev, k), "the move %r -> %r" % (w.tolist(), y.tolist()))
+        _judge(V, stats, kind, acc, (val - Lw) / T, _uniform_after(ev, k), "the move %r -> %r" % (w.tolist(), y.tolist()),
+               scale=(abs(val) + abs(Lw)) / T)
         if acc:
             w = y.copy()
     return w
@@ -306,7 +322,8 @@ def refine_hmc(V, stats, h, ev, w, rec, seq0):
         H0 = _kinetic(h, r0) - Lw / T
         H1 = _kinetic(h, r1) - val / T
         _judge(V, stats, "hmc", acc, H0 - H1, _uniform_after(ev, k),
-               "the trajectory %r -> %r (H0=%.9g, H1=%.9g)" % (t0.tolist(), t1.tolist(), H0, H1))
+               "the trajectory %r -> %r (H0=%.9g, H1=%.9g)" % (t0.tolist(), t1.tolist(), H0, H1),
+               scale=abs(_kinetic(h, r0)) + abs(_kinetic(h, r1)) + (abs(Lw) + abs(val)) / T)
         # reversibility of the actual proposal (measured by the recorder right after the forward run)
         err = cl[6]
         im_ = h.cfg["knobs"].get("inverse_mass")
